@@ -351,6 +351,7 @@ def opVerb (req : Json) : Json :=
     | "Rot13" => some .rot13
     | "PutAfter" => some (.putSpan true)
     | "PutBefore" => some (.putSpan false)
+    | "JoinLines" => some (.joinLines (n 1))
     | "OpenLineAfter" => some (.openLine true)
     | "OpenLineBefore" => some (.openLine false)
     | "InsertChar" => some (.insertChar (charOf va[1]?))
